@@ -70,7 +70,7 @@ class C18(Check):
         "log must be, per pass, the consecutive partition [0,c),[c,2c),... with every row exactly once, one pass (+1 only when "
         "centres are generated), no whole-input request when n > c, and no chunk handed on longer than c. "
         "non-trivial = >= 2 requests in a pass; distinct = case parameters"
-        ' Further classes: overwrite over an existing cache, irregular row groups, Parquet read-ahead bound, zero-dominated weights, index column + patch_num, debug logging, progress display on healthy and dying streams, default probe size, 2^20+1000 randoms.'
+        ' Further classes: overwrite over an existing cache, irregular row groups, Parquet read-ahead bound, zero-dominated weights, index column + patch_num, debug logging, progress display on healthy and dying streams, default probe size, 2^20+1000 randoms, one row request of a DataFrame source failing once with an I/O error (raise or complete, never a skipped slice).'
     )
     assumptions = [
         "for FITS the proxy sees the slices asked of the column object, not what astropy maps underneath",
